@@ -13,6 +13,8 @@ import Driver.C20
 import Driver.C16
 import Driver.C07
 import Driver.C05
+import Driver.C10
+import Driver.C01
 
 def main (args : List String) : IO UInt32 := do
   match args with
@@ -31,4 +33,6 @@ def main (args : List String) : IO UInt32 := do
   | ["c16"] => Driver.C16.run; return 0
   | ["c07"] => Driver.C07.run; return 0
   | ["c05"] => Driver.C05.run; return 0
+  | ["c10"] => Driver.C10.run; return 0
+  | ["c01"] => Driver.C01.run; return 0
   | _ => IO.eprintln "usage: bufmodel <property-protocol>"; return 2
